@@ -43,16 +43,24 @@ func executeFlush(db *DB, flushAction memStoreFlushAction) error {
 
 	gen := atomic.AddUint64(&db.currentGeneration, uint64(1))
 	writePath := filepath.Join(db.basePath, fmt.Sprintf(SSTablePattern, gen))
-	err := os.MkdirAll(writePath, 0700)
+	// the table is written under a temporary name and renamed once it is complete: a crash must not leave a half-written
+	// table where the recovery would load it (its records are still in the write-ahead log at that point)
+	tmpPath := filepath.Join(db.basePath, fmt.Sprintf(MemstoreFlushPattern, gen))
+	err := os.MkdirAll(tmpPath, 0700)
 	if err != nil {
 		return err
 	}
 
 	err = memStoreToFlush.FlushWithTombstones(
-		sstables.WriteBasePath(writePath),
+		sstables.WriteBasePath(tmpPath),
 		sstables.WithKeyComparator(db.cmp),
 		sstables.WriteBufferSizeBytes(int(db.writeBufferSizeBytes)),
 		sstables.BloomExpectedNumberOfElements(numElements))
+	if err != nil {
+		return err
+	}
+
+	err = os.Rename(tmpPath, writePath)
 	if err != nil {
 		return err
 	}
